@@ -337,3 +337,32 @@ def values_for(spec, ty, modname, cfg):
     def _s(draw):
         return VG(draw, spec, cfg).value(ty, modname)
     return _s()
+
+
+def to_numeric_enums(spec, ty, modname, v):
+    """Rewrite ENUMERATED names to numbers (numeric_enums=True representation)."""
+    r = asn.resolve(spec, ty, modname)
+    b = r.base
+    k = b.kind
+    if k == 'ENUMERATED' and isinstance(v, str):
+        for e in list(b.enum_root) + list(b.enum_ext or []):
+            if e[0] == v:
+                return e[1]
+        return v
+    if k in ('SEQUENCE', 'SET') and isinstance(v, dict):
+        out = {}
+        for m in b.all_members():
+            if m.name in v:
+                out[m.name] = to_numeric_enums(spec, m.ty, r.mod, v[m.name])
+        for kk in v:
+            if kk not in out:
+                out[kk] = v[kk]
+        return out
+    if k == 'CHOICE' and isinstance(v, tuple) and len(v) == 2:
+        for m in b.all_members():
+            if m.name == v[0]:
+                return (v[0], to_numeric_enums(spec, m.ty, r.mod, v[1]))
+        return v
+    if k in ('SEQUENCE OF', 'SET OF') and isinstance(v, list):
+        return [to_numeric_enums(spec, b.elem, r.mod, x) for x in v]
+    return v
